@@ -25,7 +25,7 @@ def run_variant(v, keep=False):
                 return 'EDIT-FAILED', 'text not found in %s: %r' % (ed['file'], old[:60])
             s = s[:idx] + new + s[idx + len(old):]
             open(p, 'w').write(s)
-        env = dict(os.environ, VERIF_REPO_INCLUDE=inc, VERIF_SELFTEST='1')
+        env = dict(os.environ, VERIF_REPO_INCLUDE=inc, VERIF_SELFTEST='1', VERIF_OUT_DIR=os.path.join(tmp, 'out'))
         r = subprocess.run([sys.executable, os.path.join(V, 'bin', 'vcheck'), v['property'], '--tier', v.get('tier', 'quick')],
                            capture_output=True, text=True, env=env, cwd=V)
         exp = v.get('expect', 1)
@@ -43,7 +43,7 @@ def main():
     bad = 0
     from concurrent.futures import ThreadPoolExecutor
     todo = [v for v in vs if not sel or v['name'] in sel or v['property'] in sel]
-    # evidence/replay files are written by these runs too; restore them afterwards by re-running on /repo is the caller's job
+    # each variant writes its evidence/replay files under its own scratch directory (VERIF_OUT_DIR)
     with ThreadPoolExecutor(max_workers=4) as ex:
         for v, (st, tail) in zip(todo, ex.map(run_variant, todo)):
             print('%-40s %-4s %s' % (v['name'], v['property'], st))
